@@ -578,7 +578,8 @@ pub fn case(cfg: &CaseCfg) -> BoxedStrategy<Case> {
               actions.insert(at, Action::Unsub(k));
               actions.insert(at, Action::Unsub(k));
             }
-            _ => actions.insert(at, Action::DropUsing(k)),
+            _ if j % 2 == 0 => actions.insert(at, Action::DropUsing(k)),
+            _ => actions.insert(at, Action::DropUsingUnwinding(k)),
           }
         }
       }
